@@ -86,12 +86,17 @@ Proof.
 Qed.
 
 (** The loop [while has_redirect_from] of [Command::from_tokens] ends for every token list. *)
-Theorem from_tokens_total l : from_tokens l <> inr PFuel.
+Lemma from_tokens_core_total l : from_tokens_core l <> inr PFuel.
 Proof.
-  unfold from_tokens. destruct (from_loop (S (length l)) (l, [], [])) as [[[l' ty] va]|] eqn:E.
+  unfold from_tokens_core. destruct (from_loop (S (length l)) (l, [], [])) as [[[l' ty] va]|] eqn:E.
   - destruct (tokens_to_redirections l') as [[tk rd]|e]; discriminate.
   - exfalso. apply (from_loop_total (S (length l)) (l, [], [])); [cbn; lia|exact E].
 Qed.
+
+(** ... also with the split of attached [<file] words in front of it (/repo 543507e): the fuel is computed
+    from the list that enters the loop *)
+Theorem from_tokens_total l : from_tokens l <> inr PFuel.
+Proof. unfold from_tokens. apply from_tokens_core_total. Qed.
 
 Lemma map_cmds_total segs : map_cmds segs <> inr PFuel.
 Proof.
@@ -159,7 +164,7 @@ Proof.
   destruct t as [tg x]. unfold safe_word. cbn [fst snd]. intros S W.
   destruct (tag_eqb tg TNone); cbn [negb orb andb] in *; [|reflexivity].
   destruct (str_eqb x w) eqn:E; [|reflexivity]. apply str_eqb_eq in E. subst x.
-  apply andb_true_iff in S as [S S3]. apply andb_true_iff in S as [_ S1].
+  apply andb_true_iff in S as [S S4]. apply andb_true_iff in S as [S S3]. apply andb_true_iff in S as [_ S1].
   apply orb_true_iff in W as [W|W]; rewrite W in *; discriminate.
 Qed.
 
@@ -221,17 +226,29 @@ Lemma redir_first_safe t : safe_word t = true ->
 Proof.
   destruct t as [tg w]. unfold safe_word, redir_step. cbn [fst snd r_tbc r_new r_red r_s1 r_s2 negb andb].
   intro S. destruct (tag_eqb tg TNone); cbn [negb andb orb] in *; [|reflexivity].
-  apply andb_true_iff in S as [S _]. apply andb_true_iff in S as [S _]. now rewrite S.
+  apply andb_true_iff in S as [S _]. apply andb_true_iff in S as [S _]. apply andb_true_iff in S as [S _]. now rewrite S.
 Qed.
 
 (** If the first token of a pipeline stage is a proper word (quoted, or free
     of [>] and not [<] / [<<<]), the planned command keeps it as its first
     word: such a stage can never be wordless. *)
+Lemma safe_word_not_att t : safe_word t = true -> att_lt t = false.
+Proof.
+  destruct t as [tg w]. unfold safe_word. cbn [fst snd]. destruct tg; try reflexivity.
+  cbn [tag_eqb negb orb]. intro H. repeat (apply andb_true_iff in H as [H ?]).
+  destruct w as [|c [|c2 r]]; try reflexivity. cbn.
+  match goal with H : negb (starts_with_c c_lt _) = true |- _ => apply negb_true_iff in H; cbn in H; rewrite H end.
+  reflexivity.
+Qed.
+
 Theorem from_tokens_head_word t l c : safe_word t = true ->
   from_tokens (t :: l) = inl c -> exists r, c_tokens c = t :: r.
 Proof.
   intros HS H. unfold from_tokens in H.
-  destruct (from_loop (S (length (t :: l))) (t :: l, [], [])) as [[[l' ty] va]|] eqn:E; [|discriminate].
+  assert (HA : att_lt t = false) by (apply safe_word_not_att; exact HS).
+  change (split_lts (t :: l)) with (split_lt t ++ split_lts l) in H. unfold split_lt in H. rewrite HA in H.
+  cbn [app] in H. unfold from_tokens_core in H. set (l0 := split_lts l) in *.
+  destruct (from_loop (S (length (t :: l0))) (t :: l0, [], [])) as [[[l' ty] va]|] eqn:E; [|discriminate].
   destruct (from_loop_head _ _ _ _ _ _ HS E) as [l2 Hl]. unfold toks_of in Hl. cbn [fst] in Hl. subst l'.
   unfold tokens_to_redirections in H. cbn [redir_loop] in H. rewrite (redir_first_safe t HS) in H.
   destruct (redir_loop (mkr [t] [] false [] []) l2) as [s'|e] eqn:EL; [|discriminate].
@@ -261,7 +278,7 @@ Proof.
   - destruct seg as [|t l]; [discriminate|]. cbn [head_safe] in H1.
     destruct (from_tokens_head_word _ _ _ H1 E) as [x Hx]. rewrite Hx. cbn [is_empty].
     specialize (IH H2). destruct (map_cmds r) as [cs|e']; [discriminate|]. intro H. injection H as ->. contradiction.
-  - intro H. injection H as ->. unfold from_tokens in E.
+  - intro H. injection H as ->. unfold from_tokens, from_tokens_core in E.
     destruct (from_loop _ _) as [[[l' ty] va]|]; [|discriminate].
     destruct (tokens_to_redirections l') as [[tk rd]|e]; discriminate.
 Qed.
